@@ -101,6 +101,19 @@ def pick(t, terms):
     return acc
 
 
+JOINED = "__c20_joined__"
+
+
+class VGenJoined(VUnk):
+    """Result of an inlined block-generator helper of a driver: for every consumer it is an unknown value (VUnk), except
+    `b"".join(...)`, which gets the concatenation of the yielded byte strings in order (PY-GEN: a generator consumed by join)."""
+    __slots__ = ("joined",)
+
+    def __init__(self, joined):
+        super().__init__("generator")
+        self.joined = joined
+
+
 class C20Executor(Executor):
     """Symbolic byte arrays on the heap (kind 'symarr': (length, Array)), the round-key cache object."""
 
@@ -296,16 +309,83 @@ class C20Executor(Executor):
             ls.sort(key=lambda n: (n.lineno, n.col_offset))
             return ls
         helper = self.cur_fn_stack[-1]
-        if loops_of(self.cur_fn_stack[0]) or self._has_yield(helper.body):
+        if loops_of(self.cur_fn_stack[0]) or (self._has_yield(helper.body) and self._joined_ref(self._cur_state) is None):
             return None
         hl = loops_of(helper)
         return c.loops.get(0) if hl and hl[0] is node else None
 
+    _cur_state = None
+
     def s_For(self, s, st):
+        self._cur_state = st
         return self._keep_cut_tag(super().s_For, s, st)
 
     def s_While(self, s, st):
+        self._cur_state = st
         return self._keep_cut_tag(self._s_while, s, st)
+
+    # ---- generator pipelines: a driver without a loop of its own hands the blocks to `b"".join(<helper generator>(...))`.  The
+    # helper is executed in place with a hidden output buffer among its locals: `yield v` appends the bytes of v (concrete length)
+    # to it, so the helper's block loop looks like the loop of a driver that grows a bytearray and the driver's loop invariant
+    # applies by role; the value of the call is the concatenation, visible only to `b"".join`.
+    def _joined_ref(self, st):
+        if st is None or not st.frames:
+            return None
+        v = st.frames[-1].env.get(JOINED)
+        return v.ref if isinstance(v, VRef) else None
+
+    def run_body(self, st, fnode, env, static=None):
+        import ast as _ast
+        c = getattr(self, "contract", None)
+        if c is not None and not self.abstract and getattr(c, "role", "") in DRIVERS and self.inline_depth == 0 \
+                and isinstance(fnode, _ast.FunctionDef) and len(self.cur_fn_stack) == 1 and self._has_yield(fnode.body) \
+                and not any(isinstance(n, (_ast.For, _ast.While)) for n in _ast.walk(self.cur_fn_stack[0])) \
+                and not any(isinstance(n, _ast.YieldFrom) for n in _ast.walk(fnode)):
+            ref = st.alloc(HeapObj("symarr", (z3.IntVal(0), z3.K(I, z3.BitVecVal(0, 8)))), self.refs)
+            env = dict(env)
+            env[JOINED] = VRef(ref)
+            out = []
+            for (s2, v) in super().run_body(st, fnode, env, static):
+                o = s2.heap.get(ref)
+                if isinstance(v, (VTuple, VUnk)) and o is not None and o.kind == "symarr":
+                    n, a = o.data
+                    out.append((s2, VGenJoined(symbytes(n, a))))
+                else:
+                    out.append((s2, v))
+            return out
+        return super().run_body(st, fnode, env, static)
+
+    def on_yield(self, st, v, node):
+        ref = self._joined_ref(st)
+        if ref is None:
+            return super().on_yield(st, v, node)
+        items = self.concrete_items(st, v)
+        if items is None or not all(isinstance(x, VInt) for x in items):
+            raise Unsupported(f"{self.loc(node)} block generator yields a value that is not a byte string of concrete length")
+        self._grow(st, ref, items)
+
+    def s_With(self, s, st):
+        """`with contextlib.suppress(E, ...): body` is by definition `try: body / except (E, ...): pass`"""
+        import ast as _ast
+        if len(s.items) == 1 and s.items[0].optional_vars is None and isinstance(s.items[0].context_expr, _ast.Call):
+            call = s.items[0].context_expr
+            dotted = _ast.unparse(call.func)
+            head = dotted.split(".")[0]
+            origin = self.module.imports.get(head)
+            full = (origin + dotted[len(head):]) if origin else dotted
+            if full == "contextlib.suppress" and not call.keywords and call.args and head not in self.module.functions \
+                    and all(isinstance(a, (_ast.Name, _ast.Attribute)) for a in call.args):
+                node = getattr(s, "_c20_try", None)
+                if node is None:
+                    typ = call.args[0] if len(call.args) == 1 else _ast.Tuple(elts=list(call.args), ctx=_ast.Load())
+                    handler = _ast.ExceptHandler(type=typ, name=None, body=[_ast.Pass()])
+                    node = _ast.Try(body=s.body, handlers=[handler], orelse=[], finalbody=[])
+                    for x in (handler, handler.body[0], node, typ):
+                        _ast.copy_location(x, s)
+                    _ast.fix_missing_locations(node)
+                    s._c20_try = node
+                return self.s_Try(node, st)
+        return super().s_With(s, st)
 
     def _s_while(self, s, st):
         from pyvc.symex import LoopCtx, Outcome
@@ -367,6 +447,8 @@ class C20Executor(Executor):
         for n_ in [x for b_ in body for x in _ast.walk(b_)]:
             if isinstance(n_, _ast.AugAssign) and isinstance(n_.target, _ast.Name) and isinstance(st.lookup(n_.target.id), VRef):
                 refs.add(st.lookup(n_.target.id).ref)
+        if self._joined_ref(st) is not None and self._has_yield(body):
+            refs.add(self._joined_ref(st))
         sym = {r: st.heap[r] for r in refs if st.heap.get(r) is not None and st.heap[r].kind == "symarr"}
         carried = []
         if spec is not None and getattr(spec, "rebind", None) == "carried-16-byte-blocks":
@@ -409,7 +491,34 @@ class C20Executor(Executor):
                 if oc == "little":
                     bs = bs[::-1]
                 return [(st, VInt(z3.Concat(*bs) if len(bs) > 1 else bs[0]))]
+        if isinstance(f, VFunc) and f.how == "ext" and isinstance(f.a, str) and f.a not in self.reg.ext_models and f.a not in self.reg.fn:
+            if f.a.startswith("operator.") and f.a.split(".", 1)[1] in self.OPERATOR_BINOPS and len(args) == 2 and not kwargs:
+                return [(s_, v_) for (s_, v_) in self.binop(st, self.OPERATOR_BINOPS[f.a.split(".", 1)[1]], args[0], args[1], node)]
+            if f.a in ("itertools.chain.from_iterable", "chain.from_iterable") and len(args) == 1 and not kwargs:
+                outer = self.concrete_items(st, args[0])
+                parts = [self.concrete_items(st, a) for a in outer] if outer is not None else None
+                if parts is not None and all(p_ is not None for p_ in parts):
+                    return [(st, VTuple([x for p_ in parts for x in p_]))]
         return super().call(st, f, args, kwargs, node)
+
+    OPERATOR_BINOPS = {"xor": "BitXor", "and_": "BitAnd", "or_": "BitOr", "add": "Add", "sub": "Sub", "mul": "Mult", "floordiv": "FloorDiv",
+                       "mod": "Mod", "lshift": "LShift", "rshift": "RShift"}
+
+    def b_map(self, st, args, kwargs, node):
+        """map(f, xs, ys, ...) over iterables of known length, consumed eagerly like a generator expression"""
+        cols = [self.concrete_items(st, a) for a in args[1:]]
+        if kwargs or len(args) < 2 or any(c is None for c in cols):
+            return self.havoc_call(st, "map", args, node)
+        states = [(st, [])]
+        for row in zip(*cols):
+            nxt = []
+            for (s1, acc) in states:
+                for (s2, v) in self.call(s1, args[0], list(row), {}, node):
+                    nxt.append((s2, acc + [v]))
+            states = nxt
+            if len(states) > 8:
+                return self.havoc_call(st, "map", args, node)
+        return [(s1, VTuple(acc)) for (s1, acc) in states]
 
     def _int_to_bytes(self, st, v, args, kwargs, node):
         ln = args[0] if args else kwargs.get("length", VInt(1))
@@ -640,6 +749,16 @@ class C20Executor(Executor):
             return [(r[1], r[2])]
         return super().e_ListComp(n, st)
 
+    def b_divmod(self, st, args, kwargs, node):
+        """divmod(a, b) == (a // b, a % b) on integers (ZeroDivisionError path from the engine's `//`)"""
+        if len(args) != 2 or kwargs or not all(isinstance(a, VInt) for a in args):
+            return self.havoc_call(st, "divmod", args, node)
+        out = []
+        for (s1, q) in self.binop(st, "FloorDiv", args[0], args[1], node):
+            r = ops.pure_binop("Mod", args[0], args[1])
+            out.append((s1, VTuple([q, r])))
+        return out
+
     def b_sum(self, st, args, kwargs, node):
         items = self.concrete_items(st, args[0])
         start = args[1] if len(args) > 1 else kwargs.get("start")
@@ -681,6 +800,8 @@ class C20Executor(Executor):
         return symbytes(z3.simplify(L * seq.length), z3.Lambda([x], body))
 
     def bytes_method(self, st, obj, name, args, kwargs, node):
+        if name == "join" and isinstance(obj, VBytes) and not obj.items and len(args) == 1 and isinstance(args[0], VGenJoined) and not kwargs:
+            return [(st, args[0].joined)]
         if name == "join" and isinstance(obj, VBytes) and not obj.items and len(args) == 1 and isinstance(args[0], VSeq) \
                 and self.concrete_items(st, args[0]) is None:
             return [(st, self._join_blocks(st, args[0], node))]
